@@ -532,6 +532,10 @@ class WorkQueue:
         async def pump() -> None:
             try:
                 async for items in stream.queue.batches():
+                    if self._stopped:
+                        # cancelled (a cancellation delegated to an item future
+                        # may get lost): nobody will handle the items any more
+                        return
                     handled = Event()
                     self._push(_StreamItems(stream, list(items), handled))
                     # Wait until the items were handled before proceeding, so
